@@ -156,7 +156,12 @@ func (ref Target) IsConvertibleToType(typ cty.Type) bool {
 			// anything is convertible to dynamic
 			isConvertible = true
 		}
-		if _, err := convert.Convert(cty.UnknownVal(ref.Type), typ); err == nil {
+		// Only the existence of a conversion matters here. Converting an
+		// unknown value (convert.Convert) additionally computes the resulting
+		// type, which panics in go-cty for some type pairs (e.g. a list
+		// converted to a tuple containing dynamic types).
+		if ref.Type.Equals(typ.WithoutOptionalAttributesDeep()) ||
+			convert.GetConversionUnsafe(ref.Type, typ) != nil {
 			isConvertible = true
 		}
 	}
